@@ -223,6 +223,7 @@ class Gen:
         if name == "RandomState" and self.kind == "global":
             def make(seed=None):
                 return Gen("fresh" if seed is None else ("seeded", seed), self.script, self.registry)
+            make._abs_type = "np.random.RandomState"      # the class itself, when it is bound to a local name and used in isinstance
             return make
         if name in ("default_rng", "Generator", "PCG64", "SeedSequence", "MT19937") and self.kind == "global":
             def make2(*a, **k):
